@@ -226,6 +226,16 @@ pub(crate) fn ephemeral_stream<M>(
     (tx, rx)
 }
 
+/// Verification hook: builds both halfs of an ephemeral stream over a caller-supplied gossip handle.
+#[cfg(p2panda_p2panda_verif)]
+pub fn verif_ephemeral_stream<M>(
+    topic: Topic,
+    forge: OperationForge,
+    handle: GossipHandle,
+) -> (EphemeralStreamPublisher<M>, EphemeralStreamSubscription<M>) {
+    ephemeral_stream(topic, forge, handle)
+}
+
 /// Publish messages into an ephemeral topic stream.
 ///
 /// Any message type `M` can be published as long as it can be encoded into bytes by implementing
